@@ -169,6 +169,18 @@ def do_call(q, spec):
             warnings.simplefilter('ignore')
             with np.errstate(all='ignore'):
                 res = getattr(q, spec['m'])(*args, **kw)
+        if res is None and spec['m'] in ('B_fieldline', 'plot_axis', 'B_contour'):
+            # what a plotting method DRAWS is its result: the data of the 2-D lines left on the open figures (show=False)
+            drawn = []
+            for num in plt.get_fignums():
+                for ax in plt.figure(num).get_axes():
+                    for ln in ax.get_lines():
+                        try:
+                            drawn.append(np.round(np.asarray(ln.get_data(), dtype=float), 10))
+                        except Exception:
+                            pass
+            if drawn:
+                res = drawn
         return 'ok', res
     except Exception as ex:
         return 'raised', type(ex).__name__ + ': ' + str(ex)[:80]
@@ -427,6 +439,22 @@ def main():
                                               sequence=[dict(m='to_vmec', kw=dict(r=0.05, ntheta=6)), dict(m='to_vmec', kw=dict(r=0.05, ntheta=10))], independence=True, **src0))
         except Exception:
             pass
+        # fixed scenario: on an order-r3 object, every evaluation / plotting entry point gives the same result before and after calculate_shear()
+        # (which adds iota2 and friends to the object)
+        try:
+            src3 = dict(cfg=dict(rc=[1.0, 0.09], zs=[0.0, -0.09], nfp=2, etabar=0.95, order='r3', B2c=-0.7, p2=-600000.0, I2=0.3, nphi=21))
+            specs = [dict(m='B_fieldline', kw=dict(r=0.07, alpha=0.4, nphi=30, show=False)), dict(m='B_mag', args=[0.07, 0.3, 0.5], kw=dict(Boozer_toroidal=True)),
+                     dict(m='B_mag', args=[0.07, 0.3, 0.5], kw=dict(Boozer_toroidal=False)), dict(m='Bfield_cylindrical', kw=dict(r=0.05, theta=0.2)),
+                     dict(m='get_boundary', kw=dict(r=0.05, ntheta=6, nphi=8, ntheta_fourier=6, mpol=3, ntor=4)), dict(m='min_R0_penalty')]
+            for spec in specs:
+                qa = build_src(src3); sa, ra = do_call(qa, spec)
+                qb = build_src(src3); do_call(qb, dict(m='calculate_shear')); sb, rb = do_call(qb, spec)
+                res['independence_checked'] += 1
+                if sa != sb or (sa == 'ok' and canon(ra) != canon(rb)):
+                    res['violations'].append(dict(key=spec['m'], what='%s gives a different result after calculate_shear() than on the fresh object' % spec['m'],
+                                                  sequence=[dict(m='calculate_shear'), spec], independence=True, **src3))
+        except Exception:
+            pass
         thorough = a.tier == 'thorough'
         n_obj = a.n if a.mode == 'check' else 10 ** 9
         budget = a.budget if a.mode == 'search' else (55 if not thorough else max(a.budget, 600))
@@ -463,6 +491,16 @@ def main():
                 except RuntimeError:
                     i += 1
                     continue
+                if gen_count % 4 == 3:
+                    # a small device: min R0 below the min_R0_threshold of 0.3 (lengths scaled; the other inputs scaled according to their dimension)
+                    from oracle_C08 import scaled_cfg
+                    c2 = scaled_cfg(cfg, 0.2, 1.0)
+                    try:
+                        q2, m2 = build(c2)
+                        if admissible(q2, m2):
+                            cfg, q = c2, q2
+                    except Exception:
+                        pass
                 src = dict(cfg=jsonable(cfg))
                 if has_sentinel(q):
                     res['sentinel_objects'] += 1
